@@ -112,3 +112,59 @@ pub fn run(target: &str, data: &[u8]) {
         other => panic!("unknown fuzz target {}", other),
     }
 }
+
+
+/// Writes a deterministic seed corpus for a fuzz target: structured prefix
+/// bytes followed by small valid inputs (fixtures, writer output, token
+/// sequences). `xtv fuzz-corpus <target> <dir>`.
+pub fn write_corpus(target: &str, dir: &std::path::Path) -> std::io::Result<usize> {
+    use crate::model::Val;
+    use crate::util::Style;
+    std::fs::create_dir_all(dir)?;
+    let mut payloads: Vec<Vec<u8>> = vec![];
+    for (_, b) in crate::corpus::fixtures() {
+        if b.len() <= 4096 {
+            payloads.push(b);
+        }
+    }
+    let docs = [
+        Val::Map(vec![(Val::s("a"), Val::Seq(vec![Val::Int(1), Val::Float(2.5), Val::s("x"), Val::Null])), (Val::s("b"), Val::Map(vec![(Val::s("c"), Val::Bool(true))]))]),
+        Val::Seq(vec![Val::s("1e3"), Val::Int(u64::MAX as i128), Val::Int(i64::MIN as i128)]),
+        Val::Map(vec![]),
+        Val::s("scalar"),
+    ];
+    for f in FORMATS {
+        for d in &docs {
+            let d = crate::oracle::project_source(d.clone(), f);
+            if crate::oracle::writable(&d, f) {
+                for style in [Style::canonical(), Style { tape: vec![200, 17, 99, 255, 3, 128], cyclic: true }] {
+                    payloads.push(crate::oracle::write_source(&d, f, &style).0);
+                }
+            }
+        }
+        for i in (0..crate::corpus::token_seq_count(f, 2)).step_by(37) {
+            payloads.push(crate::corpus::token_seq(f, i));
+        }
+    }
+    payloads.push(b"a: 1\n---\n- b\n...\n".to_vec());
+    payloads.push(crate::checks::c07::encode_text("k: [1, \u{e9}]\n", "utf-16le", true));
+    payloads.push(crate::checks::c07::encode_text("k: v\n", "utf-32be", false));
+    let prefixes: &[&[u8]] = match target {
+        "detect_transparent" => &[&[0], &[1], &[4, 2, 3, 7]],
+        "yaml_mem" => &[&[0, 0, 0, 0, 0, 2], &[1, 2, 9, 9, 1, 1, 1, 0], &[1, 3, 2, 1, 2, 0, 0, 3], &[0, 0, 2, 0, 1, 0], &[3, 0, 3, 0, 0, 0]],
+        _ => &[&[0, 0, 0], &[0, 1, 1], &[2, 0, 1], &[3, 2, 0], &[4, 0, 1], &[5, 3, 1], &[5, 0, 4, 2, 3, 5]],
+    };
+    let mut n = 0;
+    for (i, p) in payloads.iter().enumerate() {
+        for (j, pre) in prefixes.iter().enumerate() {
+            if (i + j) % prefixes.len() > 1 {
+                continue;
+            }
+            let mut data = pre.to_vec();
+            data.extend_from_slice(p);
+            std::fs::write(dir.join(format!("seed-{:04}-{}", i, j)), data)?;
+            n += 1;
+        }
+    }
+    Ok(n)
+}
